@@ -85,13 +85,14 @@ def plans():
     inv = ['TypeOK', 'Symmetric', 'OnlyLive']
     ps = []
     bounds = {'one_many': 2, 'one_one': 2, 'reflexive_11': 3, 'assoc_class': {'L': 1, 'R': 1, 'A': 2},
-              'subsuper': {'SUP': 2, 'SA': 1, 'SB': 1}, 'many_one_2key': 2, 'shared_ref': {'T': 1, 'V': 1, 'S': 1}}
+              'subsuper': {'SUP': 2, 'SA': 1, 'SB': 1}, 'many_one_2key': 2, 'shared_ref': {'T': 1, 'V': 1, 'S': 1},
+              'phrase_ends': {'P': 1, 'D': 2}}
     for name, b in bounds.items():
         ps.append({'name': name, 'schema': name, 'spec': 'SpecVal', 'alpha': {'new', 'link', 'save'},
                    'bound': b, 'invariants': inv, 'properties': ['SaveLoadIdentity'], 'must_cover': ('VSaveLoad', 'VRelate'),
                    'budget': 3000, 'stages': [(lambda lab, dst: lab.startswith('VSaveLoad'), 0.6), (lambda lab, dst: True, 0.4)],
                    'decorate': decorate, 'obs': obs})
-    for name in ('valued', 'reals', 'keywords', 'assoc_reflexive', 'reflexive_1m'):
+    for name in ('valued', 'reals', 'keywords', 'assoc_reflexive', 'reflexive_1m', 'grid', 'phrase_ends', 'mixed_case'):
         ps.append({'name': name + '_values', 'schema': name, 'model': False, 'bound': 3, 'decorate': decorate,
                    'obs': obs, 'random': value_runs})
     return ps
